@@ -613,7 +613,7 @@ class World(object):
             self.skipped += 1
             return
         rid = len(self.reqs)
-        n = max(1, min(n, 5))
+        n = max(1, min(n, 5)) if n < 100 else min(n, 300)
         if shape in (0, 1):
             n = 1
         topics = [("s%06d/%d%s" % (rid, j, "ñ" if (qosbits >> 7) & 1 else ""), (qosbits >> (2 * j)) % 3)
@@ -702,8 +702,10 @@ class World(object):
             chunks = [data]
         self.push(("rx",) + tuple(desc))
         try:
-            self.ev(conn, "rx", data=data, desc=desc, nchunks=len(chunks),
-                    parts=parts if desc and desc[0] == "SEGMENT" else [desc])
+            e_rx = self.ev(conn, "rx", data=data, desc=desc, nchunks=len(chunks),
+                           parts=parts if desc and desc[0] == "SEGMENT" else [desc])
+            if desc and desc[0] == "RAW":
+                e_rx.d["outstanding"] = getattr(self, "raw_outstanding", None)
             for ch in chunks:
                 if conn.lost:
                     break
@@ -808,7 +810,7 @@ class World(object):
             if kind == "SUBACK":
                 if y == 0 and i in conn.b_sub:
                     n = conn.b_sub[i]
-                    codes = [[0, 1, 2, 0x80][(x >> (2 * j)) & 3] for j in range(n)]
+                    codes = [[0, 1, 2, 0x80][(x >> (2 * (j % 8))) & 3] for j in range(n)]
                 else:
                     n = y % 9
                     codes = [[0, 1, 2, 0x80][((x * 7 + y) >> (2 * j)) & 3] for j in range(n)]
@@ -835,7 +837,7 @@ class World(object):
             self.in_seq += 1
             payload = ("<%06d>" % self.in_seq).encode() + b"q" * size
             if qos:
-                pid = 1 + (y % 3) if y < 250 else 65535
+                pid = 1 + (y % 3) if y < 250 else (65535 if y < 1000 else (y - 1000) % 65535 + 1)
                 if qos == 2 and pid in self.in_q2[a]:
                     topic, payload, retain = self.in_q2[a][pid]      # a broker repeats the same message
                     dup = True
@@ -866,6 +868,8 @@ class World(object):
             return
         if isinstance(data, str):
             data = bytes.fromhex(data)
+        self.raw_outstanding = dict(PUBACK=list(conn.b_q1), PUBREC=list(conn.b_q2), PUBCOMP=list(conn.b_rel),
+                                    SUBACK=list(conn.b_sub), UNSUBACK=list(conn.b_unsub))
         self.deliver(conn, data, ("RAW",), cuts)
 
     # --- time
